@@ -127,6 +127,46 @@ impl PlanBuilder {
     }
 }
 
+/// The "universal" family: one generator configuration with the whole operation alphabet switched
+/// on (sampled and unsampled traces, no-op spans, ordered / duplicated parent lists, nested scopes,
+/// local collectors and pushed sets, attachments through every route, cancel, remote children,
+/// observations), kept short. Every SEQ property runs it under its own rules, so that no rule set
+/// depends on the narrower alphabet of its dedicated generator.
+pub fn universal(quick: bool) -> GenCfg {
+    let mut g = GenCfg::base("U");
+    g.traces = vec![
+        TraceOpt { trace: 0x0A, sampled: true, remote_parent: 0 },
+        TraceOpt { trace: 0xFFFF_FFFF_FFFF_FFFF_0000_0000_0000_000B, sampled: false, remote_parent: 0x8000_0000_0000_0001 },
+    ];
+    g.any_trace_order = true;
+    g.max_spans = 3;
+    g.max_parents = 2;
+    g.ordered_parents = true;
+    g.dup_parent = true;
+    g.allow_noop = true;
+    g.allow_inert_local = true;
+    g.allow_scope = true;
+    g.allow_lc = true;
+    g.max_sets = 1;
+    g.max_depth = 2;
+    g.max_locals = 2;
+    g.max_attach = 1;
+    g.handle_attach = true;
+    g.local_attach = true;
+    g.creation_props = true;
+    g.allow_cancel = true;
+    g.cancel_non_root = true;
+    g.allow_child_local = true;
+    g.finish_while_scoped = true;
+    g.remote_children = true;
+    g.observe = true;
+    g.elapsed = true;
+    g.to_records = true;
+    g.collect_open = true;
+    g.max_len = if quick { 3 } else { 4 };
+    g
+}
+
 pub fn plan(property: &str, tier: &str) -> Option<CheckSpec> {
     let quick = tier == "quick";
     let mut b = PlanBuilder::new();
@@ -745,6 +785,25 @@ pub fn plan(property: &str, tier: &str) -> Option<CheckSpec> {
             external = Some((format!("{}/target-disabled/release/vx-disabled", crate::check::verif_root()), vec![(if quick { "3" } else { "4" }).to_string()]));
         }
         _ => return None,
+    }
+    // the universal family under this property's rules
+    let u_configs: &[bool] = match property {
+        "C01" | "C10" | "C11" | "C18" => &[false],
+        "C03" => &[true],
+        "C02" | "C04" | "C05" | "C06" | "C08" | "C17" => &[true, false],
+        _ => &[],
+    };
+    let mut rule_text = rule_text;
+    if !u_configs.is_empty() {
+        // the rules of the property's SEQ jobs (scenario jobs come first and use the same set)
+        let rules: Vec<Rule> = b.jobs.iter().find(|j| j.engine == "SEQ").or(b.jobs.first()).map(|j| j.rules.iter().map(|r| rule_of(r)).collect()).unwrap_or_default();
+        let mut u = universal(quick);
+        if property == "C18" {
+            u.busy_wait_us = 150;
+        }
+        let cycles = if property == "C10" || property == "C11" { 0 } else { 1 };
+        let nu = b.add_gen(&u, cycles, u_configs, &rules, 3_000_000);
+        rule_text = format!("{rule_text}; plus the universal family: {nu} programs over the whole operation alphabet (<= {} operations) x {cycles} cycle placement(s)", u.max_len);
     }
     Some(CheckSpec {
         property: property.into(),
